@@ -117,6 +117,10 @@ struct Transport::Impl
   {
     std::condition_variable cv;
     bool done{false};
+    // Set (under syncMutex) by a connectSync caller that timed out and is about to
+    // close the session itself. The map entry is then kept until onClose so the
+    // global close callback stays suppressed; a late onConnect must not consume it.
+    bool abandoned{false};
     ConnectResult result{ConnectResult::err(TransportErrorInfo{TransportError::Timeout, "pending"})};
   };
   std::mutex syncMutex;
@@ -318,9 +322,15 @@ struct Transport::Impl
           if (it != pendingConnects.end())
           {
             op = it->second;
-            op->result = ConnectResult::ok(sid);
-            op->done = true;
-            pendingConnects.erase(it);
+            if (!op->abandoned)
+            {
+              op->result = ConnectResult::ok(sid);
+              op->done = true;
+              pendingConnects.erase(it);
+            }
+            // else: the caller already timed out and issued close(sid). Keep the
+            // entry so the onClose of that close finds it and suppresses the global
+            // onClose for a sid the caller never received.
           }
         }
         // Notify outside syncMutex — avoids the woken thread immediately
@@ -855,6 +865,7 @@ inline ConnectResult Transport::connectSync(const std::string &host, std::uint16
   // returning so connectGuard's dtor (the activeConnects decrement, a syncMutex-
   // guarded mutation) runs UNDER the lock — it destructs before `lk` because it
   // is declared after it.
+  op->abandoned = true; // under syncMutex: a late onConnect must leave the entry for onClose
   lk.unlock();
   _impl->engine->close(sid);
   lk.lock();
